@@ -320,6 +320,9 @@ pub fn run(opts: &Opts) -> i32 {
     rep.require("declined_acks_checked", 100);
     rep.require("err_OverMaxPacketSize", 100);
     // ---- B. builder-reported sizes at connection level
-    super::c09_conn::run_part(opts, &rep);
+    // (the strict interpreter stage covers the pure codec part only)
+    if std::env::var("VERIF_SANITIZER").as_deref() != Ok("miri") {
+        super::c09_conn::run_part(opts, &rep);
+    }
     rep.finish()
 }
